@@ -427,6 +427,9 @@ fn main() {
         });
         let (events, points, payloads, vids) = match run { Ok(x) => x, Err(e) => { eprintln!("recording failed: {e}"); std::process::exit(2) } };
         let cps: Vec<usize> = if dense { (points[0]..=events.len()).collect() } else { points.clone() };
+        // the recording is written once; `crash` / `recovered` events are inserted at their crash point (they do not
+        // change the state of the specification, so the recording simply goes on behind them)
+        let mut written_upto: Option<usize> = None;
         for cp in cps {
             let logs = file_logs(&events, cp);
             let acked = acked_records(&events, cp, &vids);
@@ -454,8 +457,12 @@ fn main() {
                             if o.init_ok && !o.after_ok { direct.push(json!({"kind": "write_after_recovery_lost", "got": "a record written after recovery was not served after the next restart"})); }
                             if !direct.is_empty() { failed += 1; println!("MISMATCH {}", json!({"case": case, "mismatches": direct})); continue; }
                             // the recording up to the crash + crash + recovered, for TLC
-                            let _ = writeln!(w, "{}", json!({"ev": "reset", "a": 1 << 30, "ok": 1, "seq": 0, "f": "", "f2": "", "k": "", "id": -1, "loc": "", "off": 0, "len": 0, "op": ""}));
-                            for e in events.iter().take(cp) { if e["ev"] != "reset" { let mut e2 = e.clone(); if let Some(m) = e2.as_object_mut() { m.remove("data"); } let _ = writeln!(w, "{}", e2); } }
+                            let from = match written_upto {
+                                None => { let _ = writeln!(w, "{}", json!({"ev": "reset", "a": 1 << 30, "ok": 1, "seq": 0, "f": "", "f2": "", "k": "", "id": -1, "loc": "", "off": 0, "len": 0, "op": ""})); 0 }
+                                Some(u) => u,
+                            };
+                            for e in events.iter().take(cp).skip(from) { if e["ev"] != "reset" { let mut e2 = e.clone(); if let Some(m) = e2.as_object_mut() { m.remove("data"); } let _ = writeln!(w, "{}", e2); } }
+                            written_upto = Some(cp.max(from));
                             let cuts: Vec<Value> = img.files.iter().map(|(n, _, c)| json!([n, c])).collect();
                             let _ = writeln!(w, "{}", json!({"ev": "crash", "op": img.kind, "cuts": cuts, "f": "", "f2": "", "k": "", "id": -1, "loc": "", "off": 0, "len": 0, "a": 0, "ok": 1, "seq": 0}));
                             let acked_j: Vec<Value> = acked.iter().map(|a| json!([a.0, a.1])).collect();
